@@ -128,7 +128,7 @@ func TestVerif_C07_TokenCreate(t *testing.T) {
 		pdata := map[string]any{"policies": ppol, "no_default_policy": true}
 		switch fairIndex(rt, "parentFlavour", 8) {
 		case 0:
-			pdata["num_uses"] = 3
+			pdata["num_uses"] = []int{3, 1, 2}[fairIndex(rt, "parentUses", 3)] // 1: the creation request is the parent's final use
 		case 1:
 			pdata["type"] = "batch"
 		}
